@@ -205,7 +205,7 @@ type CaseFile struct {
 	Case json.RawMessage   `json:"case"`
 }
 
-var caseEnvVars = []string{"GOMAXPROCS"}
+var caseEnvVars = []string{"GOMAXPROCS", "VERIF_ARCH"}
 
 func currentEnv() map[string]string {
 	var m map[string]string
